@@ -1,6 +1,6 @@
 """C03 allocation exclusive and two-way consistent"""
 from .. import oracles as O
-from ..propkit import Kit
+from ..propkit import Kit, cutoff_ops
 
 
 def _oracle(S, b, trace):
@@ -13,18 +13,5 @@ def _oracle(S, b, trace):
     return out
 
 
-def _make_ops(rng, c):
-    """mostly one fresh run; sometimes a run cut off after a few steps followed by a second call with
-    any combination of the two initialize flags (state kept / reset, logs kept / cleared)"""
-    from .. import gen
-    o = gen.gen_sim_op(rng, c, vary_init=True)
-    if rng.random() < 0.85:
-        return [o]
-    o1 = dict(o, init_state=True, init_log=True, max_time=rng.choice([1, 2, 3, 4]))
-    si, li = rng.choice([(False, False), (False, True), (True, False), (True, True)])
-    o2 = dict(o, init_state=si, init_log=li, rule=rng.randrange(0, 9))
-    return [o1, o2]
-
-
-K = Kit("C03", _oracle, streams=(("structured", 0.5), ("contention", 0.32), ("pairs", 0.18)), make_ops=_make_ops)
+K = Kit("C03", _oracle, streams=(("structured", 0.5), ("contention", 0.32), ("pairs", 0.18)), make_ops=cutoff_ops)
 eval_case, run, replay = K.eval_case, K.run, K.replay
